@@ -229,7 +229,6 @@ func zeroOfSort(s Sort) *Term {
 	panic("zeroOfSort " + string(s))
 }
 
-
 func iteVal(c *Term, a, b Val) Val {
 	if len(a.C) != len(b.C) {
 		panic(fmt.Sprintf("iteVal arity mismatch %v / %v", a, b))
